@@ -31,6 +31,9 @@ class Idx:
         return f"Idx({self.name},{self.size})"
 
 
+_NOSLICE = object()
+
+
 class _Poison:
     def __init__(self, exc):
         self.exc = exc
@@ -155,6 +158,24 @@ class CV:
         if isinstance(k, slice):
             return apply(lambda v, a, b, c: v[slice(a, b, c)], self, k.start, k.stop, k.step)
         return apply(lambda v, kk: v[kk], self, k)
+
+    def __setitem__(self, k, value):
+        """item / slice assignment on a CV of lists (or dicts): done per choice on a copy"""
+        def assign(v, a, b, c, val, kk):
+            v = v.copy()
+            if kk is _NOSLICE:
+                v[slice(a, b, c)] = val
+            else:
+                v[kk] = val
+            return v
+        if isinstance(k, slice):
+            new = apply(assign, self, k.start, k.stop, k.step, value, _NOSLICE)
+        else:
+            new = apply(assign, self, None, None, None, value, k)
+        if isinstance(new, CV):
+            self.idxs, self.table = new.idxs, new.table
+        else:
+            self.idxs, self.table = (), {(): new}
 
     def __contains__(self, x):
         r = apply(lambda v, xx: xx in v, self, x)
